@@ -444,6 +444,9 @@ class _Num:
     def _cmp(self, o, op):
         if not isinstance(o, (I, R, int, float, Fraction, B)):
             return NotImplemented
+        if isinstance(o, float) and o in (float('inf'), float('-inf')):
+            # every symbolic number is finite
+            return B(z3.BoolVal(bool(op(0, 1 if o > 0 else -1))))
         if isinstance(self, I) and _isintlike(o):
             return B(op(self.z, zi(o)))
         return B(op(zr(self), zr(o)))
@@ -548,6 +551,10 @@ class I(_Num):
         return ex.concretize_int(self.z)
 
     __int__ = __index__
+
+    def __hash__(self):
+        # used as a dict key / set member: realise (fork) -- equal values then hash equally
+        return hash(self.__index__())
 
     def __float__(self):
         return float(self.__index__())
